@@ -306,7 +306,8 @@ def items_for(tier, rnd):
 def main(tier):
     quick = tier == 'quick'
     rnd = random.Random(common.seed() * 31 + (0 if quick else 7))
-    col = Collector(PROP, tier, 'exploration', RULE, ASSUME, floor=30)
+    from .. import faults as _f
+    col = Collector(PROP, tier, 'exploration', RULE + _f.LAYER_RULE % _f.LAYER_JUDGED[PROP], ASSUME, floor=30)
     t0 = time.time()
     budget = 110 if quick else 1000
     items = items_for(tier, rnd)
@@ -322,7 +323,11 @@ def main(tier):
     if not quick:
         from . import miri_layer
         miri_layer.unit_tests(col, PROP, ('jobserver::tests',), time.time() + 400)     # MAKEFLAGS parsing and the timer future, under Miri
-    rc = col.finish()
+    from .. import faults
+    fn, fits, cov = faults.layer(PROP, tier, rnd)
+    for r in common.pmap(fn, fits, procs=8, deadline=time.time() + (40 if quick else 500)):
+        col.add(r)
+    rc = col.finish(extra_coverage=cov)
     common.cleanup_scratch()
     return rc
 
@@ -332,6 +337,9 @@ def replay(path):
     d = json.load(open(path))
     rp = d['replay']
     common.ensure_built()
+    if rp['kind'] == 'io-fault':
+        from .. import faults
+        return faults.replay(PROP, path)
     if rp['kind'] == 'gate':
         it = rp['item']
         r = gate_case((it[0], it[1], it[2], it[3], tuple(it[4]), it[5]))
